@@ -259,6 +259,8 @@ def dict_unknown(p: int, n: int) -> bool:
 
 
 _KNOWN_POLY = known("C10-dict-unknown-key-in-polymorphic-object")
+_KNOWN_DICT_WRAPPER = known("C10-dict-unknown-key-in-wrapper-object")
+_WRAPPER_PATHS = {"wrapped": [("ints",)]}  # own level of wrapper objects (the listed known finding's signature)
 # own level of objects that the decoder binds by key-set detection / best match (the listed known finding's signature)
 _POLY_LEVELS = {"holder": [("b",), ("bb", "*")], "holdernest": [("b",), ("bb", "*")], "wlderived": [("items", "*")], "family": [("base", "*"), ("derived", "*"), ("sibling", "*"), ("members", "*")], "unionmodels": [("item",), ("it", "*")]}
 
@@ -273,6 +275,8 @@ def _is_poly(path):
 def _dict_paths(d, prefix=()):
     if prefix and prefix[-1] in ("attributes", "attrs"):
         return []  # a key added to an attribute map is a new attribute, not an unknown property
+    if _KNOWN_DICT_WRAPPER and PART.get("fup", 1) and prefix in _WRAPPER_PATHS.get(_DOC, []):  # the finding concerns the strict mode only
+        return [p for k, v in d.items() for p in _dict_paths(v, prefix + (k,))] if isinstance(d, dict) else []
     if _KNOWN_POLY and _is_poly(prefix) and not PART.get("fup", 1):  # the finding concerns the lenient mode only
         return [p for k, v in d.items() for p in _dict_paths(v, prefix + (k,))] if isinstance(d, dict) else []
     out = [prefix] if isinstance(d, dict) and (not prefix or _is_model_dict(d)) else []
@@ -312,7 +316,7 @@ def _known_names():
             for var in meta.get_all_vars():
                 if var.is_element or var.elements:
                     names.add(var.qname)
-                    for ch in var.elements:
+                    for ch in (var.elements.values() if isinstance(var.elements, dict) else var.elements):
                         names.add(ch.qname)
                 if var.wrapper_qname:
                     names.add(var.wrapper_qname)
@@ -406,6 +410,20 @@ def wrapper_attr_witness():
     xml = '<wr xmlns="urn:a"><ints bogus="1"><i>1</i></ints><tail>t</tail></wr>'
     try:
         XmlParser(config=PC(fail_on_unknown_attributes=True)).from_string(xml, Wrapped)
+    except ParserError:
+        return True
+    return False
+
+
+def dict_wrapper_witness():
+    """Known finding C10-dict-unknown-key-in-wrapper-object through the public API."""
+    from harness.models import Wrapped
+    from xsdata.formats.dataclass.parsers.config import ParserConfig as PC
+
+    data = DictEncoder().encode(Wrapped(ints=[1, 2], tail="t"))
+    data["ints"]["zz_unknown"] = 1
+    try:
+        DictDecoder(config=PC(fail_on_unknown_properties=True)).decode(data, Wrapped)
     except ParserError:
         return True
     return False
